@@ -125,7 +125,10 @@ type lockScanner struct {
 	out      []accessRec
 	seen     map[string]bool
 	notes    []string
-	spawned  []string // methods started with `go`
+	spawned  []string                 // methods started with `go`
+	scanned  []string                 // functions scanned (methods of the type, constructors, functions taking it)
+	funcs    map[string]*ast.FuncDecl // plain functions of the package
+	freshMem map[*ast.FuncDecl]int    // 0 unknown, 1 computing / no, 2 yes
 }
 
 type loopCtx struct {
@@ -137,6 +140,7 @@ type loopCtx struct {
 type fnCtx struct {
 	fn        string
 	vars      map[string]*varInfo
+	ptrs      map[string][2]string // local pointer p := &v.f[...]  ->  (v, f)
 	held      heldSet
 	published bool // constructor started a goroutine: the object is visible to other threads from here on
 	noPrepub  int  // > 0 inside closures that may run after publication
@@ -263,7 +267,7 @@ func cmdLocks(repo, rel, typeName, mutexField string) error {
 		return err
 	}
 	ls := &lockScanner{fset: fset, typeName: typeName, fields: map[string]*fieldInfo{}, methods: map[string]*ast.FuncDecl{},
-		pkgTypes: map[string]ast.Expr{}, seen: map[string]bool{}}
+		pkgTypes: map[string]ast.Expr{}, seen: map[string]bool{}, funcs: map[string]*ast.FuncDecl{}}
 	var st *ast.StructType
 	for _, f := range files {
 		for _, d := range f.Decls {
@@ -320,6 +324,8 @@ func cmdLocks(repo, rel, typeName, mutexField string) error {
 			}
 			if tn, _ := recvTypeName(fd); tn == typeName {
 				ls.methods[fd.Name.Name] = fd
+			} else if fd.Recv == nil {
+				ls.funcs[fd.Name.Name] = fd
 			}
 			funcs = append(funcs, fd)
 		}
@@ -371,6 +377,7 @@ func cmdLocks(repo, rel, typeName, mutexField string) error {
 			continue
 		}
 		c.stack = []string{fd.Name.Name}
+		ls.scanned = append(ls.scanned, fd.Name.Name)
 		ls.scanBlock(c, fd.Body)
 	}
 
@@ -390,6 +397,7 @@ func cmdLocks(repo, rel, typeName, mutexField string) error {
 	}
 	fmt.Printf("   fields: %s\n", commentSafe(strings.Join(plain, ", ")))
 	fmt.Printf("   skipped: %s\n", commentSafe(strings.Join(skipped, "; ")))
+	fmt.Printf("   functions: %s\n", strings.Join(ls.scanned, ", "))
 	fmt.Printf("   spawned: %s\n", strings.Join(ls.spawned, ", "))
 	for _, n := range ls.notes {
 		fmt.Printf("   note: %s\n", commentSafe(n))
@@ -446,13 +454,21 @@ func (ls *lockScanner) emit(c *fnCtx, at ast.Node, varName, field string, write,
 
 // emitUnknown: something the scan cannot classify, reported as an unguarded plain write.
 func (ls *lockScanner) emitUnknown(c *fnCtx, at ast.Node, field, why string) {
+	ls.emitUnknownOn(c, at, "", field, why)
+}
+
+// emitUnknownOn: as emitUnknown; when the object is a fresh one that is not yet published, whatever happens
+// to the field happens before publication.
+func (ls *lockScanner) emitUnknownOn(c *fnCtx, at ast.Node, varName, field, why string) {
 	if field == "" {
 		field = "?"
 	}
 	if fi := ls.fields[field]; fi != nil && (fi.kind == fkLock || fi.kind == fkSkip) {
 		return
 	}
-	ls.add(accessRec{fn: c.fn, loc: field, write: true, atomic: false, held: "[]", prepub: false, pos: ls.pos(at),
+	v := c.vars[varName]
+	prepub := v != nil && v.fresh && !c.published && c.noPrepub == 0
+	ls.add(accessRec{fn: c.fn, loc: field, write: true, atomic: false, held: "[]", prepub: prepub, pos: ls.pos(at),
 		note: "UNCLASSIFIED: " + why})
 }
 
@@ -516,12 +532,34 @@ func (ls *lockScanner) lvalueRoot(c *fnCtx, e ast.Expr) (string, string, bool) {
 		case *ast.SelectorExpr:
 			e = t.X
 		case *ast.Ident:
+			if pf, ok := c.ptrs[t.Name]; ok {
+				return pf[0], pf[1], true
+			}
 			return "", "", false
 		default:
 			ls.scanExpr(c, e)
 			return "", "", false
 		}
 	}
+}
+
+// addressOfField: e is &<something rooted at a plain or atomic field of a tracked variable>
+func (ls *lockScanner) addressOfField(c *fnCtx, e ast.Expr) (string, string, bool) {
+	u, ok := e.(*ast.UnaryExpr)
+	if !ok || u.Op != token.AND {
+		return "", "", false
+	}
+	if _, isLit := u.X.(*ast.CompositeLit); isLit {
+		return "", "", false
+	}
+	v, f, ok := ls.lvalueRootQuiet(c, u.X)
+	if !ok {
+		return "", "", false
+	}
+	if fi := ls.fields[f]; fi == nil || (fi.kind != fkPlain && fi.kind != fkAtomic) {
+		return "", "", false
+	}
+	return v, f, true
 }
 
 func (ls *lockScanner) scanLvalue(c *fnCtx, e ast.Expr) {
@@ -545,12 +583,88 @@ func (ls *lockScanner) freshObject(c *fnCtx, e ast.Expr) bool {
 		if id, ok := t.Fun.(*ast.Ident); ok && id.Name == "new" && len(t.Args) == 1 && isTypeT(t.Args[0], ls.typeName) {
 			return true
 		}
+		// h2 := h.clone() / x := NewT(...): a function of this package all of whose returns hand out a fresh object
+		switch f := t.Fun.(type) {
+		case *ast.SelectorExpr:
+			if id, ok := f.X.(*ast.Ident); ok && c.vars[id.Name] != nil {
+				if md := ls.methods[f.Sel.Name]; md != nil && ls.returnsFresh(md) {
+					return true
+				}
+			}
+		case *ast.Ident:
+			if fd := ls.funcs[f.Name]; fd != nil && ls.returnsFresh(fd) {
+				return true
+			}
+		}
 	case *ast.StarExpr: // c := *h  (a copy is a fresh object)
 		if id, ok := t.X.(*ast.Ident); ok {
 			if _, tr := c.vars[id.Name]; tr {
 				return true
 			}
 		}
+	}
+	return false
+}
+
+// returnsFresh: the function's result type is T / *T and every return statement (outside closures) returns
+// &T{…}, T{…}, new(T) or a local variable that was only ever bound to such an expression.
+func (ls *lockScanner) returnsFresh(fd *ast.FuncDecl) bool {
+	if ls.freshMem == nil {
+		ls.freshMem = map[*ast.FuncDecl]int{}
+	}
+	if st := ls.freshMem[fd]; st != 0 {
+		return st == 2
+	}
+	ls.freshMem[fd] = 1
+	res := fd.Type.Results
+	if res == nil || len(res.List) != 1 || len(res.List[0].Names) > 1 || !isTypeT(res.List[0].Type, ls.typeName) || fd.Body == nil {
+		return false
+	}
+	probe := &fnCtx{fn: fd.Name.Name, vars: map[string]*varInfo{}}
+	freshLocals := map[string]bool{}
+	tainted := map[string]bool{}
+	ok, nret := true, 0
+	ast.Inspect(fd.Body, func(n ast.Node) bool {
+		switch t := n.(type) {
+		case *ast.FuncLit:
+			return false
+		case *ast.AssignStmt:
+			for i, l := range t.Lhs {
+				if id, isId := l.(*ast.Ident); isId {
+					if len(t.Lhs) == len(t.Rhs) && ls.freshObject(probe, t.Rhs[i]) {
+						freshLocals[id.Name] = true
+					} else {
+						tainted[id.Name] = true
+					}
+				}
+			}
+		case *ast.ReturnStmt:
+			nret++
+			if len(t.Results) != 1 {
+				ok = false
+				return true
+			}
+			r := t.Results[0]
+			if id, isId := r.(*ast.Ident); isId {
+				if !freshLocals[id.Name] {
+					ok = false
+				}
+				return true
+			}
+			if !ls.freshObject(probe, r) {
+				ok = false
+			}
+		}
+		return true
+	})
+	for n := range freshLocals {
+		if tainted[n] {
+			ok = false
+		}
+	}
+	if ok && nret > 0 {
+		ls.freshMem[fd] = 2
+		return true
 	}
 	return false
 }
@@ -618,7 +732,31 @@ func (ls *lockScanner) scanStmt(c *fnCtx, s ast.Stmt) {
 			}
 		}
 	case *ast.AssignStmt:
-		for _, r := range t.Rhs {
+		for i, r := range t.Rhs {
+			if len(t.Lhs) == len(t.Rhs) {
+				if id, ok := t.Lhs[i].(*ast.Ident); ok {
+					if v, f, ok := ls.addressOfField(c, r); ok {
+						// p := &v.f[...]: follow the pointer inside this function instead of giving up
+						if c.ptrs == nil {
+							c.ptrs = map[string][2]string{}
+						}
+						c.ptrs[id.Name] = [2]string{v, f}
+						ls.scanIndexParts(c, r.(*ast.UnaryExpr).X)
+						continue
+					}
+					if rid, ok := r.(*ast.Ident); ok {
+						if pf, isPtr := c.ptrs[rid.Name]; isPtr { // q := p
+							c.ptrs[id.Name] = pf
+							continue
+						}
+					}
+				} else if rid, ok := r.(*ast.Ident); ok {
+					if pf, isPtr := c.ptrs[rid.Name]; isPtr { // x.y = p: the pointer leaves the function's view
+						ls.emitUnknown(c, r, pf[1], "pointer to the field stored elsewhere")
+						continue
+					}
+				}
+			}
 			ls.scanExpr(c, r)
 		}
 		for i, l := range t.Lhs {
@@ -628,6 +766,15 @@ func (ls *lockScanner) scanStmt(c *fnCtx, s ast.Stmt) {
 					rhs = t.Rhs[i]
 				}
 				rid, _ := rhs.(*ast.Ident)
+				if _, f, ok := ls.addressOfField(c, rhs); ok && f != "" {
+					continue // registered above
+				}
+				if rid != nil {
+					if _, isPtr := c.ptrs[rid.Name]; isPtr && c.ptrs[id.Name] == c.ptrs[rid.Name] {
+						continue
+					}
+				}
+				delete(c.ptrs, id.Name)
 				switch {
 				case rhs != nil && ls.freshObject(c, rhs):
 					c.vars[id.Name] = &varInfo{fresh: true}
@@ -665,6 +812,12 @@ func (ls *lockScanner) scanStmt(c *fnCtx, s ast.Stmt) {
 		}
 	case *ast.ReturnStmt:
 		for _, r := range t.Results {
+			if id, ok := r.(*ast.Ident); ok {
+				if pf, isPtr := c.ptrs[id.Name]; isPtr {
+					ls.emitUnknown(c, r, pf[1], "pointer to the field returned")
+					continue
+				}
+			}
 			ls.scanExpr(c, r)
 		}
 		c.held = nil
@@ -1002,14 +1155,26 @@ func (ls *lockScanner) scanExpr(c *fnCtx, e ast.Expr) {
 				ls.emit(c, t, v, f, false, false)
 				return false
 			}
+			ls.scanExpr(c, t.X) // not the selector's name
+			return false
+		case *ast.Ident:
+			if pf, ok := c.ptrs[t.Name]; ok {
+				ls.emit(c, t, pf[0], pf[1], false, false) // use of p / *p / p[i] / p.x: a read through the pointer
+			}
 			return true
+		case *ast.KeyValueExpr:
+			ls.scanExpr(c, t.Value) // not the key (a field name in struct literals)
+			if _, isId := t.Key.(*ast.Ident); !isId {
+				ls.scanExpr(c, t.Key)
+			}
+			return false
 		case *ast.UnaryExpr:
 			if t.Op == token.AND {
 				if _, isLit := t.X.(*ast.CompositeLit); !isLit {
-					if _, f, ok := ls.lvalueRootQuiet(c, t.X); ok {
+					if v, f, ok := ls.lvalueRootQuiet(c, t.X); ok {
 						fi := ls.fields[f]
 						if fi.kind == fkPlain || fi.kind == fkAtomic {
-							ls.emitUnknown(c, t, f, "address of the field taken")
+							ls.emitUnknownOn(c, t, v, f, "address of the field taken")
 							// index expressions inside are still read
 							ls.scanIndexParts(c, t.X)
 							return false
@@ -1226,6 +1391,10 @@ func (ls *lockScanner) scanCall(c *fnCtx, call *ast.CallExpr) bool {
 // scanArg: an argument expression; handing the whole object to other code cannot be followed.
 func (ls *lockScanner) scanArg(c *fnCtx, a ast.Expr) {
 	if id, ok := a.(*ast.Ident); ok {
+		if pf, isPtr := c.ptrs[id.Name]; isPtr {
+			ls.emitUnknown(c, a, pf[1], "pointer to the field passed to other code")
+			return
+		}
 		if vi := c.vars[id.Name]; vi != nil {
 			if !(vi.fresh && !c.published && c.noPrepub == 0) {
 				ls.emitUnknown(c, a, "", "the object itself is passed to other code")
